@@ -173,6 +173,9 @@ class Ctx:
         return i
 
     def mk(self, head, args=(), typ=None):
+        if head[0] == "unpack" and len(head) == 2 and isinstance(head[1], int) and not isinstance(head[1], bool) and len(args) == 1:
+            # element k of a tuple assignment `a, b = X` is X[k]: one form for both spellings
+            head, args = ("sub",), (args[0], self.const(head[1]))
         return self.var(self.atom(head, args, typ))
 
     def var(self, aid):
@@ -688,7 +691,7 @@ class Evaluator:
         if head[0] == "iter" and args:
             it = args[0]
             want = ".values"
-        elif head == ("unpack", 1) and args:
+        elif head == ("sub",) and len(args) == 2 and args[1].const() == 1:
             h2 = c.head_of(args[0])
             if h2 and h2[0] == "iter":
                 it = c.args_of(args[0])[0]
@@ -1070,12 +1073,27 @@ class Evaluator:
         star = False
         for a in e.args:
             if isinstance(a, ast.Starred):
+                # f(*(a, b)) == f(a, b): a starred literal tuple / list is spliced in
+                inner = T(a.value)
+                hi = c.head_of(inner)
+                if hi and hi[0] in ("tuple", "list") and not any((c.head_of(x) or ("",))[0] == "star" for x in c.args_of(inner)):
+                    pos.extend(c.args_of(inner))
+                    continue
                 star = True
             pos.append(T(a))
         kws = []
         for k in e.keywords:
             if k.arg is None:
-                kws.append(("**", T(k.value)))
+                # f(**{"a": x, "b": y}) == f(a=x, b=y): a literal dict with string keys is spliced in
+                inner = T(k.value)
+                hi = c.head_of(inner)
+                items = c.args_of(inner) if hi and hi[0] == "dict" else None
+                if items is not None and items and all((c.head_of(it) or ("",))[0] == "item" and
+                                                       (c.head_of(c.args_of(it)[0]) or ("",))[0] == "str" for it in items):
+                    for it in items:
+                        kws.append((c.head_of(c.args_of(it)[0])[1], c.args_of(it)[1]))
+                    continue
+                kws.append(("**", inner))
             else:
                 kws.append((k.arg, T(k.value)))
         kwd = dict(kws)
